@@ -825,6 +825,36 @@ func (s *Session) checkChanges(o *Obs) error {
 				// the same walks through GET /datasets/{ds}/changes (forward, and newest-first with reverse=true)
 				if s.relaxFull == nil && os.Getenv("VERIF_HTTP_CHG") != "0" {
 					full := s.expectItems(tab[chgKey{n, 0, 0, lo}].Items)
+					if lo && s.jsQueries() {
+						// the JavaScript helper GetDatasetChanges (latest-only by definition), walked inside one script
+						code := fmt.Sprintf(`function do_query() {
+							var tok = 0;
+							for (var i = 0; i < %d; i++) {
+								var c = GetDatasetChanges(%q, tok, %d);
+								if (c == null || c.Entities == null || c.Entities.length == 0) { break; }
+								for (var k = 0; k < c.Entities.length; k++) { WriteQueryResult({e: c.Entities[k]}); }
+								tok = c.NextToken;
+							}
+						}`, len(full)+3, real, lim)
+						elems, jerr := s.postJS(code)
+						if jerr != nil {
+							return jerr
+						}
+						var got []CEntity
+						for _, raw := range elems {
+							var row struct {
+								E *server.Entity `json:"e"`
+							}
+							if err := json.Unmarshal(raw, &row); err != nil {
+								return err
+							}
+							got = append(got, Canon(row.E))
+						}
+						s.Checks++
+						if !sameSeq(full, got) {
+							s.diverge("changes-js-walk", map[string]any{"ds": n, "limit": lim, "latestOnly": true}, full, got, "")
+						}
+					}
 					for _, reverse := range []bool{false, true} {
 						if reverse && lo {
 							continue // the handler's newest-first branch has no latest-only form
